@@ -136,6 +136,9 @@ func AfterFunc(d Duration, f func()) *Timer {
 // Stop prevents the Timer from firing.
 func (t *Timer) Stop() bool {
 	if t.sim {
+		// Stop is a separate instant from whatever preceded it: the clock may
+		// advance, and the timer fire, in between
+		simrt.Yield()
 		return simrt.TimerStop(t.id)
 	}
 	return t.real.Stop()
@@ -144,6 +147,7 @@ func (t *Timer) Stop() bool {
 // Reset changes the timer to expire after d.
 func (t *Timer) Reset(d Duration) bool {
 	if t.sim {
+		simrt.Yield()
 		return simrt.TimerReset(t.id, d)
 	}
 	return t.real.Reset(d)
